@@ -7,6 +7,7 @@
 package c20
 
 import (
+	"archive/zip"
 	"bytes"
 	"errors"
 	"fmt"
@@ -399,8 +400,67 @@ func runDRM(c *fw.Ctx, id string, dir string) {
 		default:
 			c.Seen("drm.expect", "dont-care")
 		}
+		// the same protected book with an encryption.xml that cannot be read (its
+		// compressed data are damaged): what it covers is unknowable, so the book
+		// must not be admitted as if it carried no encryption at all
+		if mustRefuse && !rights && (mask%5 == 1 || mask == (1<<uint(n))-1) {
+			for _, how := range []string{"middle", "start", "truncated"} {
+				bad := damageMember(data, "META-INF/encryption.xml", how)
+				if bad == nil {
+					continue
+				}
+				os.WriteFile(path, bad, 0o644)
+				_, _, e1 := tabula.Open(path).Text()
+				rd, e2 := epubdoc.Open(path)
+				if rd != nil {
+					rd.Close()
+				}
+				os.Remove(path)
+				c.Case(caseID+" encryption.xml damaged:"+how, true)
+				c.Count("drm_unreadable_encryption_xml_checked", 1)
+				c.Seen("drm.expect", "refuse-unreadable-metadata")
+				if e1 == nil || e2 == nil {
+					c.Fail("", "drm-accepted-unreadable-metadata/"+how, id, fmt.Sprintf("EPUB with content documents encrypted by %s whose encryption.xml member is unreadable (deflate data damaged: %s) was opened as if unprotected: tabula err=%v epubdoc err=%v", al.uri, how, e1, e2), detail)
+				}
+			}
+		}
 	}
 	c.Sample(map[string]any{"id": id, "items": items, "algorithm": al.uri, "subsets": 1 << uint(n)})
+}
+
+// damageMember returns a copy of the archive in which the compressed data of
+// one deflated member are damaged (bytes overwritten in the middle or at the
+// start, or the second half zeroed); nil if the member is absent, stored or tiny.
+func damageMember(zipData []byte, name, how string) []byte {
+	zr, err := zip.NewReader(bytes.NewReader(zipData), int64(len(zipData)))
+	if err != nil {
+		return nil
+	}
+	for _, f := range zr.File {
+		if f.Name != name || f.Method != zip.Deflate || f.CompressedSize64 < 24 {
+			continue
+		}
+		off, err := f.DataOffset()
+		if err != nil {
+			return nil
+		}
+		out := append([]byte{}, zipData...)
+		n := int64(f.CompressedSize64)
+		switch how {
+		case "middle":
+			for i := n / 2; i < n/2+6; i++ {
+				out[off+i] = 0xFF
+			}
+		case "start":
+			out[off], out[off+1], out[off+2] = 0x07, 0xFF, 0xFF // reserved block type
+		default:
+			for i := n / 2; i < n; i++ {
+				out[off+i] = 0
+			}
+		}
+		return out
+	}
+	return nil
 }
 
 func hasOddContentName(items []item) bool {
